@@ -88,6 +88,21 @@ CHECKS["C19"] = dict(
    note="crash points: every byte of the calls examined in the crash-all runs, operation boundaries + all positions inside index entries + sampled positions inside lines otherwise; one writer per directory, no restart; an error instead of an empty result is tolerated when nothing is owed",
    technique="TLA+ specs MetricLog.tla (Tier A) and MC_MetricLog.tla (writer + search mechanism, crash prefixes); TLC model checking; TLC-generated histories replayed into the code; TLC trace validation incl. crash states",
    ref="DESIGN.md §6 C19")
+CHECKS["C14"] = dict(
+   text="NodeStore.tla states the atomic outcome of concurrent build / exit calls on one resource (one shared node, in-flight = un-exited entries, pass / completion / response-time totals = sums over all threads within one bucket, never more across a roll-over). TLC model-checks the mechanism (get-or-create as separately locked steps, atomic counters) against it for all interleavings of 3 threads and refutes the design as found and a non-atomic decrement. On the real code, 2-3 real threads run under a deterministic scheduler driven by guarded std::sync shims: depth-first over all schedules with a bounded number of preemptions at every lock acquisition and atomic access of the statistics code (fresh and existing resource, inbound / outbound, held entries, a clock step placed anywhere, inside a bucket and across a roll-over), then randomised priority schedules; TLC validates every distinct execution",
+   note="implementation-level exploration is bounded (preemption bound 2, thorough 3, plus random schedules); sequentially consistent atomics; no rule loaded",
+   technique="TLA+ specs NodeStore.tla / MC_NodeStore.tla; TLC model checking of the mechanism; systematic schedule exploration of the real code (deterministic scheduler over sync shims); TLC trace validation of every execution",
+   ref="DESIGN.md §6 C14, §13")
+CHECKS["C15"] = dict(
+   text="Locks.tla composes the lock programs of all manager operations - recorded from the current tree by running each operation alone under the sync shims - pairwise with std's Mutex / RwLock semantics (readers queue behind a waiting writer) and TLC explores every interleaving of every pair for a state in which no thread can move; candidates are handed to the deterministic scheduler. On the real code every pair of manager operations of each family (load-all, load-for-resource, empty load, append, clear, clear-for-resource, get) with a concurrent entry on the affected resource, cross-family pairs, two-step programs and state-change listeners that read the manager run as real threads under the scheduler (all schedules up to a preemption bound at every manager / breaker lock acquisition, then random); the scheduler decides dead-lock, panics are caught per call, and a health probe of every manager follows each execution; TLC validates every execution against ManagerConc.tla",
+   note="model level is unbounded in interleavings but per-instance locks of different operations never conflict there; implementation level is bounded (preemption bound 1, thorough 2, plus random); custom generators calling back into the manager are not exercised",
+   technique="TLA+ specs Locks.tla (extracted lock programs, all interleavings) and ManagerConc.tla; TLC model checking; systematic schedule exploration of the real code; TLC trace validation",
+   ref="DESIGN.md §6 C15, §13")
+CHECKS["C16"] = dict(
+   text="BreakerConc.tla states the atomic machine on one execution: call starts / ends and the transition records of a registered listener (which runs inside the breaker's critical section) in the order they happened; the records must chain up to a path of the machine, Open -> Half-Open must be performed inside a request, not before the retry instant armed when the breaker (re)opened, and that request is the one admitted probe; a request is admitted only if the breaker was Closed at some instant of its call or it is the probe; the breaker opens only with enough failed completions and does open when enough have finished. TLC model-checks the mechanism (unlocked read, time-out test, guarded transition) for all interleavings and refutes the design without the re-check under the lock. On the real code 2-3 threads race around each transition (several tripping completions, several requests after the time-out, a failing probe re-opening while a request is on its way, a probe completion against a stale completion, a rolled-back probe) under the deterministic scheduler (all schedules up to a preemption bound at the breaker's synchronisation points, then random); TLC validates every distinct execution",
+   note="bounded exploration (preemption bound 2, thorough 3, plus random); error-count strategy; sequentially consistent atomics",
+   technique="TLA+ specs BreakerConc.tla / MC_BreakerConc.tla; TLC model checking of the mechanism; systematic schedule exploration of the real code; TLC trace validation of every execution",
+   ref="DESIGN.md §6 C16, §13")
 NOT_APPLICABLE = {}
 
 def main():
